@@ -111,6 +111,7 @@ type relay struct {
 	mu    sync.Mutex
 	vals  []config.ServerConfig
 	snaps []string
+	taken []int // scheduler step in which the loader took the k-th configuration
 }
 
 func newRelay(w *world.World, in chan config.ServerConfig) *relay {
@@ -124,9 +125,16 @@ func newRelay(w *world.World, in chan config.ServerConfig) *relay {
 			r.mu.Unlock()
 			r.out <- v
 			// the loader has taken the k-th configuration the front end accepted; once the
-			// system is quiescent with nothing parked it has finished dealing with it
+			// system is quiescent with nothing parked it has finished dealing with it. Only
+			// the scheduler step is noted here: an event recorded from this goroutine would
+			// race with the loader's own log calls for its place in the history
 			if w != nil && !w.Quiet {
-				w.Rec(world.Ev{Actor: "loader", Kind: "config-taken", A: int64(k)})
+				r.mu.Lock()
+				for len(r.taken) <= k {
+					r.taken = append(r.taken, -1)
+				}
+				r.taken[k] = w.Step()
+				r.mu.Unlock()
 			}
 		}
 	}()
@@ -135,6 +143,17 @@ func newRelay(w *world.World, in chan config.ServerConfig) *relay {
 
 // Config implements the loader's unmarshaled interface.
 func (r *relay) Config() chan config.ServerConfig { return r.out }
+
+// TakenSteps returns, per configuration the front end accepted, the scheduler step in
+// which the loader took it (-1: not yet).
+func (rf *Ref) TakenSteps() []int {
+	if rf.relay == nil {
+		return nil
+	}
+	rf.relay.mu.Lock()
+	defer rf.relay.mu.Unlock()
+	return append([]int(nil), rf.relay.taken...)
+}
 
 // MutatedPublished returns the indices of published configurations that no longer equal
 // the snapshot taken when they were published.
